@@ -398,6 +398,11 @@ def run(tier, seed):
         ddist.add((x["what"], differ, bool(mism)))
         if "panicked at" in se:
             continue
+        if "Init processing failed" in se and r2[0] == 1:
+            # the changed input is refused at start-up (its first RDH0 no longer passes, D9): exit status 1, nothing collected,
+            # no comparison takes place -- not a case of this stream
+            ddist.add((x["what"], "refused-at-start-up"))
+            continue
         if differ and (not (mism or "did not match" in se) or r2[0] != 57 or (not mism and not j["mute"])):
             chk.spec_violations.append(dict(desc, exit=r2[0], what="the input changed so that collected statistics differ from the file, but no mismatch / any-errors status is reported"))
         if not differ and mism:
